@@ -6,6 +6,7 @@
 pub mod capture;
 pub mod util;
 
+pub mod c05;
 pub mod c10;
 
 use util::Args;
@@ -19,6 +20,7 @@ pub fn main(argv: &[String]) -> i32 {
   }
   let args = Args::parse(&argv[1..]);
   match argv[0].as_str() {
+    "c05" => c05::run(&args),
     "c10" => c10::run(&args),
     other => {
       eprintln!("unknown property driver {other}");
